@@ -28,6 +28,7 @@ func SendAccountDebitRequest(
 	if err != nil {
 		return nil, err
 	}
+	defer conn.Close()
 
 	meta, ok := smpeer.FromContext(conn.Context())
 	if !ok {
